@@ -297,7 +297,8 @@ PIECE = re.compile(r"""'(?:[^'\\]|\\.)'|"(?:[^"\\]|\\.)*"|[A-Za-z_][A-Za-z0-9_]*
 # parentheses inside quotes); no ';' or tab inside literals: those are known findings of their own
 EXTRA_DATA = ["  .db '\"', 1", "  .db \"a,b)\", ',', '('", "  .ascii \"it's\"", "  .db ')', \"(\", 2", "  .db \"q\\\"r\", 3",
               "  .db '\\'', 4"]
-STRING_ATOMS = ["a", "b", "xy", "Z9", " ", " ", "  ", "   ", "    ", ",", ", ", "(", ")", " )", "( ", "'", "_", "-", "+ ", ".", ":", "#"]
+# no atom sequence may spell a name of Namer (prefixes Z / z / _): the hand expansion substitutes words textually
+STRING_ATOMS = ["a", "b", "xy", "k9", " ", " ", "  ", "   ", "    ", ",", ", ", "(", ")", " )", "( ", "'", "=", "-", "+ ", ".", ":", "#"]
 
 
 def extra_data(rng):
